@@ -21,3 +21,4 @@ include!("c08_mutate.rs");
 include!("c08_probes.rs");
 include!("c08_gen.rs");
 include!("c08_gen2.rs");
+include!("c08_struct.rs");
